@@ -168,6 +168,25 @@ C05SatFails(c) ==
              IN \A k \in DOMAIN ck.o : ev[ck.o[k]]>>
        >>)
 
+(* kind "miterdeep": operands with one path of more than a thousand gates.  c.l / c.r / c.m projections with witness orders
+   c.l_order / c.r_order / c.m_order; c.sat the answer of the satisfiability query on the miter.  Linear clauses. *)
+C13DeepFails(c) ==
+  IF c.exc # "" THEN {"build_miter-raised:" \o c.exc}
+  ELSE LET all == AllRows(Len(c.l.i))
+           a == EvalChecked(AsFcn(c.l.g), c.l_order, InputCols(c.l), all)
+           b == EvalChecked(AsFcn(c.r.g), c.r_order, InputCols(c.r), all)
+           m == EvalChecked(AsFcn(c.m.g), c.m_order, InputCols(c.m), all)
+           diff == UNION {(a.v[c.l.o[k]] \ b.v[c.r.o[k]]) \cup (b.v[c.r.o[k]] \ a.v[c.l.o[k]]) : k \in DOMAIN c.l.o}
+       IN IF ~a.ok \/ ~b.ok THEN {}
+          ELSE FailSet(<<
+            <<"miter-ill-formed", m.ok /\ SeqSet(c.m.o) \subseteq DOMAIN m.v>>,
+            <<"miter-inputs", Len(c.m.i) = Len(c.l.i)>>,
+            <<"miter-has-exactly-one-output", Len(c.m.o) = 1>>,
+            <<"miter-true-exactly-where-operands-differ",
+                ~m.ok \/ Len(c.m.o) # 1 \/ Len(c.m.i) # Len(c.l.i) \/ ~(SeqSet(c.m.o) \subseteq DOMAIN m.v) \/ m.v[c.m.o[1]] = diff>>,
+            <<"miter-satisfiability-answer", c.sat_exc = "" /\ c.sat = (diff # {})>>
+          >>)
+
 (************************************  C13  ********************************)
 (* kind "miter": c.l, c.r operand circuits (before), c.l_after, c.r_after, c.m miter
    projection or c.exc; c.sat (answer of is_circuit_satisfiable(miter)) *)
